@@ -10,7 +10,14 @@ import (
 	"time"
 )
 
-const repoDir = "/repo"
+// repoDir is the falco working tree under test: /repo, or $FALCOSIM_REPO for
+// background runs against a snapshot (never for registered checks).
+var repoDir = func() string {
+	if r := os.Getenv("FALCOSIM_REPO"); r != "" {
+		return r
+	}
+	return "/repo"
+}()
 
 func goEnv() []string {
 	env := os.Environ()
@@ -73,6 +80,9 @@ func modfile(scratch string) (string, error) {
 		b, err := os.ReadFile(filepath.Join(verifDir, f))
 		if err != nil {
 			return "", err
+		}
+		if f == "go.mod" && repoDir != "/repo" {
+			b = bytes.ReplaceAll(b, []byte("=> /repo\n"), []byte("=> "+repoDir+"\n"))
 		}
 		if err := os.WriteFile(filepath.Join(scratch, f), b, 0o644); err != nil {
 			return "", err
